@@ -15,12 +15,19 @@
     the old column order they are well-formed at every step and give the new column order.  Columns being renamed are
     outside (recorded region `rename-column`).  `Arrange` is the identity on every reachable state (C08).
 
-  Missing for `Statement_partial`: that `Table.Diff`'s second loop builds the merged list `Abs.merge` describes (slices
-  + position maps), and the attribute / index / foreign-key lemmas (L-elem).  Those parts are covered by the correspondence run and
+  * `diffed_columns` — **`Table.Diff` ∘ `MigrationColumnUp` on the implementation model**: for a freshly loaded new and
+    old table (consistent maps, no pending position — both hold on every reachable state, C08) whose common columns keep
+    their relative order, `Table.Diff`'s two column loops (slices, position maps, `AddColumn`, `swapOrder`) build exactly
+    the merged list `Abs.merge` with the tags of `Abs.tagged` (refinement `diffCols2_names`, Proofs/MergeRefine.lean), so
+    the ADD / DROP COLUMN statements printed for the diffed table turn the old column order into the new one.
+
+  Missing for `Statement_partial`: the attribute / index / foreign-key lemmas (L-elem) and the lift from one table's
+  column names to the whole reference-engine schema.  Those parts are covered by the correspondence run and
   by the executable predicate `Spec.c01` evaluated on the implementation's printed migration on every check.
 -/
 import SqlizeModel.Abs.Columns
 import SqlizeModel.Proofs.WalkRefine
+import SqlizeModel.Proofs.MergeRefine
 import SqlizeModel.Impl.Api
 import SqlizeModel.Spec.Scope
 
@@ -53,6 +60,36 @@ theorem printed_columns (g : Globals) (hio : g.ignoreOrder = false) (hd : g.dial
     (hnd : (cols.map (·.name)).Nodup) :
     Abs.execAll (oldNames cols) ((Table.walkCols g tb true [] cols).1.filterMap colStmt) = some (newNames cols) :=
   printed_up_correct g hio hd tb cols hact hne hnd
+
+/-- column order of C01 through `Table.Diff` and the walk of the implementation model -/
+theorem diffed_columns (g : Globals) (hio : g.ignoreOrder = false) (hd : g.dialect ≠ .sqlite) (tb : String)
+    (d : Dialect) (t old t1 : Table) (cols1 : List Column) (h : t.Inv) (hold : old.Inv)
+    (hp : t.pendingPos = none) (hadd : ∀ c ∈ t.cols, c.action = .add) (holdAdd : ∀ c ∈ old.cols, c.action = .add)
+    (hne : ∀ n ∈ t.colNames ++ old.colNames, n ≠ "") (hc : Abs.OrderCompatible t.colNames old.colNames)
+    (h1 : Table.diffCols1 d old t.cols = .ok cols1)
+    (h2 : Table.diffCols2 (d == .mysql) { t with cols := cols1 } [] old.cols = .ok t1) :
+    Abs.execAll old.colNames ((Table.walkCols g tb true [] t1.cols).1.filterMap colStmt) = some t.colNames :=
+  (Table.diffed_columns g hio hd tb d t old t1 cols1 h hold hp hadd holdAdd hne hc h1 h2).1
+
+-- non-vacuity of `diffed_columns`: two tables built by the primitives (hence consistent), with a kept, a dropped and
+-- two added columns; the loops succeed and the printed statements are non-trivial
+def mkCol (n : String) : Column := { name := n, action := .add, cur := { typ := some "int(11)" } }
+def exNewT : M Table := do
+  let t ← (Table.new "t" .add).addColumn (mkCol "z"); let t ← t.addColumn (mkCol "a"); let t ← t.addColumn (mkCol "b"); pure t
+def exOldT : M Table := do
+  let t ← (Table.new "t" .add).addColumn (mkCol "a"); let t ← t.addColumn (mkCol "x"); pure t
+example : ∃ t old cols1 t1, exNewT = .ok t ∧ exOldT = .ok old ∧ t.Inv ∧ old.Inv ∧ t.pendingPos = none ∧
+    Table.diffCols1 .mysql old t.cols = .ok cols1 ∧
+    Table.diffCols2 true { t with cols := cols1 } [] old.cols = .ok t1 ∧
+    (Table.walkCols {} "t" true [] t1.cols).1.filterMap colStmt = [.addCol "z" none, .dropCol "x", .addCol "b" (some "a")] := by
+  refine ⟨_, _, _, _, rfl, rfl, ?_, ?_, rfl, rfl, rfl, by decide⟩
+  · have h0 := Table.inv_new "t" .add
+    obtain ⟨h1, _⟩ := Table.addColumn_inv _ _ (mkCol "z") true h0 rfl
+    obtain ⟨h2, _⟩ := Table.addColumn_inv _ _ (mkCol "a") true h1 rfl
+    exact (Table.addColumn_inv _ _ (mkCol "b") true h2 rfl).1
+  · have h0 := Table.inv_new "t" .add
+    obtain ⟨h1, _⟩ := Table.addColumn_inv _ _ (mkCol "a") true h0 rfl
+    exact (Table.addColumn_inv _ _ (mkCol "x") true h1 rfl).1
 
 -- non-vacuity of `printed_columns`: a merged list with a kept, a dropped, an added and a modified column
 def exCols : List Column :=
